@@ -137,13 +137,18 @@ fn run_op(mut s: LeanString, op: Op) {
 }
 
 /// main_keeps: 0 = both handles move to the threads; 1 = main keeps a third handle and reads it after the joins;
-/// 2 = thread B's handle was truncated before (different per-handle length on the shared buffer)
+/// 2 = thread B's handle was truncated before (different per-handle length on the shared buffer);
+/// 3 = thread B's handle was truncated to 5 bytes (a shared heap handle whose own text would fit inline, so that
+///     its edits stay below the inline limit)
 fn program(a: Op, b: Op, variant: u8) {
     let base = LeanString::from(TEXT);
     let ha = base.clone();
     let mut hb = base.clone();
     if variant == 2 {
         hb.truncate(17);
+    }
+    if variant == 3 {
+        hb.truncate(5);
     }
     let keep = if variant == 1 { Some(base) } else { drop(base); None };
     let ta = loom::thread::spawn(move || run_op(ha, a));
@@ -188,7 +193,7 @@ const SCOPED_OPS: [Op; 7] = [Op::Read, Op::CloneDrop, Op::Push, Op::Remove, Op::
 
 fn programs() -> Vec<(String, Op, Op, u8)> {
     let mut v = Vec::new();
-    for variant in 0..3u8 {
+    for variant in 0..4u8 {
         for (i, a) in OPS.iter().enumerate() {
             for b in OPS.iter().skip(i) {
                 v.push((format!("{:?}|{:?}/v{}", a, b, variant), *a, *b, variant));
